@@ -29,6 +29,21 @@ def call_ext(it, ref, args, kwargs, node):
     recv = ref.recv
     if name.startswith("builtins."):
         f = _BUILTINS.get(name[9:])
+        if f is None and name not in _EXT and name.startswith("builtins.str.") and args and recv is None:
+            # unbound method of str applied to an explicit receiver: str.__hash__(x), str.__eq__(x, y), str.upper(x)
+            meth = name[len("builtins.str."):]
+            rv = ops.strval(args[0])
+            if meth == "__hash__" and len(args) == 1:
+                return Sym("hash", ops.freeze(rv))
+            cmpops = {"__eq__": "Eq", "__ne__": "NotEq", "__lt__": "Lt", "__le__": "LtE", "__gt__": "Gt", "__ge__": "GtE"}
+            if meth in cmpops and len(args) == 2 and not isinstance(args[1], Obj):
+                return ops.compare(it, cmpops[meth], rv, args[1], node)
+            if meth == "__str__" and len(args) == 1:
+                return rv
+            if meth == "__len__" and len(args) == 1:
+                return _b_len(it, [rv], {}, node)
+            if meth in _STR and not meth.startswith("__"):
+                return _STR[meth](it, rv, list(args[1:]), kwargs, node)
         if f is None and name in _EXT:
             return _EXT[name](it, args, kwargs, node)
         if f is None:
@@ -546,8 +561,18 @@ def _dict_fromkeys(it, args, kwargs, node):
     return {k: val for k in keys}
 
 
+def _b_format(it, args, kwargs, node):
+    from . import ops
+    if kwargs or not 1 <= len(args) <= 2:
+        raise _CE("format() arguments")
+    spec = args[1] if len(args) == 2 else ""
+    if is_abstract(spec):
+        raise _CE("abstract format spec")
+    return ops.format_value(it, args[0], -1, spec, node)
+
+
 _BUILTINS = {
-    "map": _b_map, "filter": _b_filter,
+    "format": _b_format, "map": _b_map, "filter": _b_filter,
     "len": _b_len, "int": _b_int, "str": _b_str, "sum": _b_sum, "zip": _b_zip, "enumerate": _b_enumerate,
     "reversed": _b_reversed, "range": _b_range, "sorted": _b_sorted, "all": _b_all, "any": _b_any,
     "bool": _b_bool, "tuple": _b_tuple, "list": _b_list, "dict": _b_dict, "frozenset": _b_frozenset,
@@ -1417,7 +1442,7 @@ def _rand_choice(it, recv, args, kwargs, node):
     """Random.choice: IndexError on an empty sequence; otherwise any element (representatives)."""
     from . import ops
     seq = ops.iterate(it, args[0], node)
-    it.event("random_draw", gen=recv, op="choice", node=node)
+    it.event("random_draw", gen=recv, op="choice", node=node, where=it._where(node))
     if not seq:
         it.may_raise("IndexError", node, "Cannot choose from an empty sequence", certain=True)
     reps = getattr(it, "choice_reps", None)
@@ -1478,7 +1503,7 @@ def _regex_shape(pattern, flags=0):
 def _rstr_xeger(it, recv, args, kwargs, node):
     from . import ops
     rx = args[0]
-    it.event("random_draw", gen=recv.gen, op="xeger", node=node)
+    it.event("random_draw", gen=recv.gen, op="xeger", node=node, where=it._where(node))
     if isinstance(rx, str):
         rx = RegexVal(rx, 0)
     if not isinstance(rx, RegexVal):
